@@ -790,6 +790,16 @@ EGLPNUM_TYPENAME_QSLIB_INTERFACE EGLPNUM_TYPENAME_QSdata *EGLPNUM_TYPENAME_QScop
 	p2->pricing->dII_price = p->pricing->dII_price;
 	EGLPNUM_TYPENAME_EGlpNumCopy (p2->pricing->htrigger, p->pricing->htrigger);
 
+	/* the limits are parameters of the problem as well */
+	p2->lp->maxiter = p->lp->maxiter;
+	p2->lp->maxtime = p->lp->maxtime;
+	EGLPNUM_TYPENAME_EGlpNumCopy (p2->uobjlim, p->uobjlim);
+	EGLPNUM_TYPENAME_EGlpNumCopy (p2->lobjlim, p->lobjlim);
+	if (p2->qslp->objsense == QS_MAX)
+		EGLPNUM_TYPENAME_ILLsimplex_set_bound (p2->lp, (const EGLPNUM_TYPE *) (&(p2->lobjlim)), QS_MAX);
+	else
+		EGLPNUM_TYPENAME_ILLsimplex_set_bound (p2->lp, (const EGLPNUM_TYPE *) (&(p2->uobjlim)), QS_MIN);
+
 	if (p->qslp->intmarker != 0)
 	{
 		ILL_SAFE_MALLOC (p2->qslp->intmarker, p->qslp->nstruct, char);
